@@ -27,7 +27,7 @@ struct Plan {
     int count = 1, mtt = 0;
     SchedCfg sched;
     uint64_t lat_lo = 20000, lat_hi = 200000, cost_lo = 200, cost_hi = 3000, tend = 100000000ULL, quiet_t = 0, drain = 60000000ULL;
-    size_t qcap = 64, cantxq = 0;
+    size_t qcap = 64, cantxq = 0, lstack = 0;  // lstack: stack of the listener limited to this many KiB (0 = the full 512)
     int64_t skew[4] = {0, 0, 0, 0};
     bool stdin_eof = false, o0 = false, ethpad = false;
     double read0 = 0;
@@ -37,6 +37,8 @@ struct Plan {
     std::vector<Mut> mut;
     std::vector<Inj> inj;
     std::vector<Stall> stall;
+    struct ClkJump { uint64_t t; int node; int64_t delta; };
+    std::vector<ClkJump> clkjump;
     std::vector<InRep> inrep;
     bool soak = false;
     struct Restart { uint64_t t; bool listener; };
